@@ -70,10 +70,15 @@ def run(tier):
         if req is not None:
             idx.append(k)
             reqs.append(req)
-    outs = run_driver(reqs)[1:]
+    # the same driver run also answers, per parsed program, whether Props.C07.skel matches Emit (tie of C07)
+    skel_reqs = ["skel " + r.split(" ")[-1] for r in reqs[1:]]
+    allouts = run_driver(reqs + skel_reqs)
+    outs = allouts[1:1 + len(idx)]
+    skels = allouts[1 + len(idx):]
     model = [None] * len(cs)
-    for k, o in zip(idx, outs):
+    for k, o, sk in zip(idx, outs, skels):
         model[k] = o
+        cs[k]["aux"]["skel"] = sk
     impl = [i for _, i, _ in res]
     # text that the real front end rejects (or crashes on) is outside this boundary: the model side
     # is "not applicable" and the case is compared only by the end-to-end suite later
